@@ -99,7 +99,7 @@ def _snapshot(inp):
 
 def _same(x, y):
     if hasattr(x, "columns"):
-        return list(x.columns) == list(y.columns) and bool(x.equals(y))
+        return list(x.columns) == list(y.columns) and bool(x.equals(y)) and dict(getattr(x, "attrs", {}) or {}) == dict(getattr(y, "attrs", {}) or {})
     return x == y
 
 
